@@ -10,20 +10,23 @@ CASES = [
       "    except SyntaxError as e:\n        syntax_error(e.lineno, e.filename, code, e.offset, e,\n                     sys.exc_info(), report=report, muted=muted, enhance=enhance)\n        report[TOOL_NAME]['success'] = False\n        report[TOOL_NAME]['ast'] = ast.parse(\"\")\n", ""),
     m('parse-hoisted-out-of-try', 'R1', 'verify:escapes:', SRC,
       "    try:\n        parsed = ast.parse(code, filename)\n        report[TOOL_NAME]['ast'] = parsed\n", "    parsed = ast.parse(code, filename)\n    try:\n        report[TOOL_NAME]['ast'] = parsed\n"),
-    m('syntax-error-also-in-else', 'R3', 'outside-handler', SRC,
+    m('syntax-error-also-in-else', 'R3', 'verify:constructs-once[accepted', SRC,
       "    else:\n        report[TOOL_NAME]['success'] = True\n    return report[TOOL_NAME]['success']", "    else:\n        report[TOOL_NAME]['success'] = True\n        if muted:\n            syntax_error(1, filename, code, 0, None, None, report=report)\n    return report[TOOL_NAME]['success']"),
-    m('handler-conditional-feedback', 'R3', 'constructs-once', SRC,
+    m('handler-conditional-feedback', 'R3', 'verify:constructs-once[SyntaxError', SRC,
       "    except SyntaxError as e:\n        syntax_error(e.lineno, e.filename, code, e.offset, e,\n                     sys.exc_info(), report=report, muted=muted, enhance=enhance)",
       "    except SyntaxError as e:\n        if enhance:\n            syntax_error(e.lineno, e.filename, code, e.offset, e,\n                         sys.exc_info(), report=report, muted=muted, enhance=enhance)"),
-    m('handler-success-true', 'R3', 'success-false', SRC,
+    m('handler-success-true', 'R3', 'verify:success[SyntaxError', SRC,
       "e,\n                     sys.exc_info(), report=report, muted=muted, enhance=enhance)\n        report[TOOL_NAME]['success'] = False", "e,\n                     sys.exc_info(), report=report, muted=muted, enhance=enhance)\n        report[TOOL_NAME]['success'] = True"),
     m('wrong-line-argument', 'R3', 'args', SRC,
       "        syntax_error(e.lineno, e.filename, code, e.offset, e,", "        syntax_error(e.end_lineno, e.filename, code, e.offset, e,"),
-    m('indentation-handler-builds-syntax-error', 'R3', 'class', SRC,
-      "        indentation_error(e.lineno, e.filename, code, e.offset, e,\n                          sys.exc_info()", "        syntax_error(e.lineno, e.filename, code, e.offset, e,\n                          sys.exc_info()"),
+    # the property accepts "syntax or indentation error" for a rejected text: which of the two classes is built for an
+    # IndentationError is not a clause (an earlier, shape-based R3 flagged this edit - over-demanding)
+    dict(name='twin-indentation-handler-builds-syntax-error', kind='twin', edits=[dict(file=SRC,
+         old="        indentation_error(e.lineno, e.filename, code, e.offset, e,\n                          sys.exc_info()",
+         new="        syntax_error(e.lineno, e.filename, code, e.offset, e,\n                          sys.exc_info()")]),
     m('parse-stripped-code', 'R4', 'parses-code', SRC,
       "        parsed = ast.parse(code, filename)", "        parsed = ast.parse(code.strip(), filename)"),
-    m('code-normalised-before-parse', 'R4', 'code-unmodified', SRC,
+    m('code-normalised-before-parse', 'R4', 'verify:parses-code', SRC,
       "    if report.submission.load_error:", "    code = code.replace('\\t', '    ')\n    if report.submission.load_error:"),
     m('stores-empty-tree-on-success', 'R4', 'stores-parse-result', SRC,
       "        report[TOOL_NAME]['ast'] = parsed\n", "        report[TOOL_NAME]['ast'] = ast.parse('')\n"),
@@ -37,7 +40,7 @@ CASES = [
       "                                   lineno, None, offset-1, end_lineno, end_offset-1)", "                                   self.exception.lineno, None, offset-1, end_lineno, end_offset-1)"),
     m('line-without-offset', 'R6', 'lineno=line+offset', SF,
       "        fields = {'lineno': line + line_offset,", "        fields = {'lineno': line,"),
-    m('location-without-offset', 'R6', 'syntax_error:location', SF,
+    m('location-without-offset', 'R6', 'syntax_error:lineno=line+offset', SF,
       "        location = Location(line=line + line_offset, col=col_offset, filename=filename)", "        location = Location(line=line, col=col_offset, filename=filename)"),
     dict(name='twin-delete-indentation-handler-falls-to-syntax', kind='twin',
          edits=[dict(file=SRC, old="    except IndentationError as e:\n        indentation_error(e.lineno, e.filename, code, e.offset, e,\n                          sys.exc_info(), report=report, muted=muted, enhance=enhance)\n        report[TOOL_NAME]['success'] = False\n        report[TOOL_NAME]['ast'] = ast.parse(\"\")\n", new="")]),
